@@ -252,6 +252,8 @@ func c10Scenario() *Scenario {
 		govOnce("gov(fee=0)", model.StrParams, "0.000000000000000000"),
 		govOnce("gov(fee=0.5)", model.StrParams, "0.500000000000000000"),
 		govOnce("gov(fee=1)", model.StrParams, "1.000000000000000000"),
+		failing(govOnce("gov(fee=1)+failing-msg", model.StrParams, "1.000000000000000000")),
+		Action{Name: "sim(claim(R1<-A))", Dt: time.Second, Sim: tx1(model.Msg{Kind: model.StrClaim, From: "R1", To: "A"})},
 	)
 	s.Actions = append(s.Actions, timeSteps(800, 700*time.Millisecond, 30*time.Second, 61*time.Second, 700*time.Second)...)
 	s.Actions = append(s.Actions, aroundZero()...)
